@@ -122,6 +122,7 @@ class BaseCtx:
             raise
         except Exception as ex:  # noqa — BaseException (engine control flow) passes through
             self.ended_by_exception = True
+            self.exc_info = "%s in %s: %s" % (type(ex).__name__, label, str(ex)[:300])
             if self.own_exceptions:
                 self._exception(label, ex)
             else:
